@@ -24,6 +24,9 @@ type C12Key struct {
 	Time  int    `json:"time,omitempty"`
 	Form  string `json:"form"`
 	Cuts  []int  `json:"cuts,omitempty"`
+	// DSplits: byte positions (anywhere, also inside a multi-byte character) at which a chunk's data is
+	// additionally split into separate data events (validator route only)
+	DSplits []int `json:"dsplits,omitempty"`
 	Pad   int    `json:"pad,omitempty"` // extra leading-zero bytes (CBE var/big forms), separators (CTE)
 }
 
@@ -126,6 +129,9 @@ func c12PickForm(t *rapid.T, k *C12Key, via string) {
 				for i := 0; i < n; i++ {
 					k.Cuts = append(k.Cuts, rapid.IntRange(0, len(k.Text)).Draw(t, "cut"))
 				}
+				for i, m := 0, rapid.IntRange(0, 3).Draw(t, "ndsplits"); i < m && len(k.Text) > 1; i++ {
+					k.DSplits = append(k.DSplits, rapid.IntRange(1, len(k.Text)-1).Draw(t, "dsplit"))
+				}
 			}
 		case "bool":
 			k.Form = rapid.SampledFrom([]string{"boolean", "truefalse"}).Draw(t, "form")
@@ -177,7 +183,7 @@ func c12PickForm(t *rapid.T, k *C12Key, via string) {
 	}
 }
 
-func c12Chunks(text []byte, cuts []int) (out []ev.Event) {
+func c12Chunks(text []byte, cuts []int, dsplits ...int) (out []ev.Event) {
 	// cuts -> sorted boundaries, aligned back to character starts
 	bounds := []int{0}
 	sorted := append([]int{}, cuts...)
@@ -201,8 +207,15 @@ func c12Chunks(text []byte, cuts []int) (out []ev.Event) {
 	for i := 0; i+1 < len(bounds); i++ {
 		lo, hi := bounds[i], bounds[i+1]
 		out = append(out, ev.Event{K: ev.ArrayChunk, U: uint64(hi - lo), B: i+2 < len(bounds)})
-		if hi > lo {
-			out = append(out, ev.Event{K: ev.ArrayData, Bs: text[lo:hi]})
+		for hi > lo {
+			next := hi
+			for _, d := range dsplits {
+				if d > lo && d < next {
+					next = d
+				}
+			}
+			out = append(out, ev.Event{K: ev.ArrayData, Bs: text[lo:next]})
+			lo = next
 		}
 	}
 	return
@@ -230,7 +243,7 @@ func (k *C12Key) rulesEvents() []ev.Event {
 		case "sarray":
 			return []ev.Event{{K: ev.StringArray, AT: at, S: string(k.Text)}}
 		case "chunked":
-			return append([]ev.Event{{K: ev.ArrayBegin, AT: at}}, c12Chunks(k.Text, k.Cuts)...)
+			return append([]ev.Event{{K: ev.ArrayBegin, AT: at}}, c12Chunks(k.Text, k.Cuts, k.DSplits...)...)
 		}
 		return []ev.Event{{K: ev.Array, AT: at, U: uint64(len(k.Text)), Bs: k.Text}}
 	case "uid":
@@ -399,6 +412,7 @@ func init() {
 				src := c.Keys[rapid.IntRange(0, n-1).Draw(t, "src")]
 				dup := src
 				dup.Cuts = nil
+				dup.DSplits = nil
 				c12PickForm(t, &dup, c.Via)
 				pos := rapid.IntRange(1, n).Draw(t, "dpos")
 				c.Keys = append(c.Keys[:pos], append([]C12Key{dup}, c.Keys[pos:]...)...)
@@ -433,6 +447,13 @@ func init() {
 			ctx.LabelIf(c.RecordType, "record-type")
 			for i := range c.Keys {
 				ctx.Label("form:" + c.Keys[i].Class + "/" + c.Keys[i].Form)
+				if c.Keys[i].Form == "chunked" && c.Via == "rules" {
+					for _, d := range c.Keys[i].DSplits {
+						if d > 0 && d < len(c.Keys[i].Text) && c.Keys[i].Text[d]&0xc0 == 0x80 {
+							ctx.Label("chunked key data split inside a character")
+						}
+					}
+				}
 			}
 			cfg := newCfg()
 			switch c.Via {
